@@ -2,12 +2,16 @@
 bounded-from-reset, bounded response from an arbitrary invariant state, covers), the native simulator stepping used for
 replay, and the extractor-vs-simulator differential test."""
 import collections
+import sys
 import random
 import time
 import z3
 from migen.fhdl.structure import Signal, _Value
 from migen.genlib.record import Record
 from . import hwvc
+
+if hasattr(sys, "set_int_max_str_digits"):
+    sys.set_int_max_str_digits(0)            # z3 numerals of very wide concatenations (difftest batches)
 from .hwvc import Translator, Frame, elaborate, signame, bvconst
 
 TIMEOUT_MS = 120000
@@ -237,6 +241,8 @@ class Unroller:
         for r in c.tr.reg_list:
             cst = z3.BitVec("%s%s" % (signame(r), tag), r.nbits)
             regs[r] = cst
+            if r in getattr(c, "havoc", ()):
+                continue            # sound over-approximation: next value of this register left unconstrained
             self.constraints.append(cst == nxt[r])
         gh = {}
         for n, g in c.ghosts.items():
